@@ -152,6 +152,60 @@ def validate_traces(cfg, traces, *, procs=8, chunk=250, timeout=900):
     return results, tot
 
 
+def _validate_plain_chunk(args):
+    module, chunk, ids, timeout = args
+    wd = tempfile.mkdtemp(prefix="verif-tv-")
+    try:
+        cfgtxt = "SPECIFICATION TraceSpec\nCONSTRAINT Reached\nPOSTCONDITION Report\nCHECK_DEADLOCK FALSE\n"
+        tf = os.path.join(wd, "traces.json")
+        with open(tf, "w") as fh:
+            json.dump(chunk, fh)
+        rc, out, wall = run(module, cfgtxt, workdir=wd, env={"TRACE_FILE": tf, "DIAG_K": "0"}, workers=1, timeout=timeout)
+        res = {}
+        for m in re.finditer(r'<<"RES", (\d+), (\d+), (\d+)>>', out):
+            res[ids[int(m.group(1)) - 1]] = (int(m.group(2)), int(m.group(3)))
+        if len(res) != len(chunk):
+            raise TlcError("trace validation run failed (rc=%s):\n%s" % (rc, out[-3000:]))
+        return res, stats(out), wall
+    finally:
+        shutil.rmtree(wd, ignore_errors=True)
+
+
+def validate_plain(module, traces, *, procs=8, chunk=250, timeout=900):
+    """Batch validation against a trace module without constants (e.g. TraceClientProto)."""
+    jobs = []
+    for i in range(0, len(traces), chunk):
+        ids = list(range(i, min(i + chunk, len(traces))))
+        jobs.append((module, [traces[j] for j in ids], ids, timeout))
+    results = {}
+    tot = {"generated": 0, "distinct": 0, "wall": 0.0, "runs": 0}
+    if not jobs:
+        return results, tot
+    with concurrent.futures.ThreadPoolExecutor(max_workers=procs) as ex:
+        for res, st, wall in ex.map(_validate_plain_chunk, jobs):
+            results.update(res)
+            if st:
+                tot["generated"] += st["generated"]
+                tot["distinct"] += st["distinct"]
+            tot["wall"] += wall
+            tot["runs"] += 1
+    return results, tot
+
+
+def diagnose_plain(module, trace, k, timeout=300):
+    wd = tempfile.mkdtemp(prefix="verif-diag-")
+    try:
+        cfgtxt = "SPECIFICATION TraceSpec\nINVARIANT Diag\nCHECK_DEADLOCK FALSE\n"
+        tf = os.path.join(wd, "traces.json")
+        with open(tf, "w") as fh:
+            json.dump([trace], fh)
+        rc, out, wall = run(module, cfgtxt, workdir=wd, env={"TRACE_FILE": tf, "DIAG_K": str(k)}, workers=1, timeout=timeout)
+        j = out.rfind("State ")
+        return out[j:j + 4000] if j >= 0 else out[-3000:]
+    finally:
+        shutil.rmtree(wd, ignore_errors=True)
+
+
 def diagnose(cfg, trace, k, timeout=300):
     """Re-run one rejected trace and return TLC's printout of the last matched state (prefix k)."""
     wd = tempfile.mkdtemp(prefix="verif-diag-")
